@@ -244,8 +244,9 @@ def run(P, R, L):
     ord15(P, R, L)
     own6(P, R, L)
     own6b(P, R, L)
-    from .c09 import pair4
+    from .c09 import pair4, ord10
     pair4(P, R, L)
+    ord10(P, R, L)
     grd9(P, R, L)
     # Drop: wait loop before take (shared with C09 ORD-12)
     from .c09 import ord12
